@@ -188,6 +188,7 @@ func (e *Enc) execBuiltin(fr *Frame, b *ssa.Builtin, c *ssa.CallCommon, instr ss
 			return Val{T: "(s_len " + args[0].T + ")", S: "Int"}
 		case *types.Map:
 			_, _, l := e.mapComps(t)
+			e.mapLenFact(t, args[0].T, cur.st)
 			return Val{T: sel(e.get(cur.st, l), args[0].T), S: "Int"}
 		case *types.Basic:
 			return Val{T: "(strlen " + args[0].T + ")", S: "Int"}
@@ -406,6 +407,8 @@ func (e *Enc) execStatic0(fr *Frame, callee *ssa.Function, args []Val, binds []V
 		return e.inlineCall(fr, callee, args, binds, resType, cur)
 	}
 	if fc != nil && (len(fc.Ensures) > 0 || fc.HasMod || len(fc.Requires) > 0 || fc.Trusted || fc.Pure || len(fc.GhostEffects) > 0) {
+		closureBinds = binds
+		defer func() { closureBinds = nil }()
 		return e.contractCall(fr, fc, callee, args, resType, pos, cur, "call:"+name)
 	}
 	// no contract: havoc by mod-set
@@ -542,6 +545,10 @@ func (e *Enc) callSiteAsserts(fr *Frame, callee string, args []Val, cur *pathSta
 		} else if c.CallK == 0 {
 			lbl = fmt.Sprintf("%s#%d", lbl, k)
 		}
+		if c.Kind == "assume" {
+			e.assumeIf(cur.reach, t)
+			continue
+		}
 		e.addObl("callsite", e.framePrefix(fr)+lbl, cur.reach, t, pos, c.Text)
 		e.assumeIf(cur.reach, t)
 	}
@@ -631,6 +638,9 @@ func (e *Enc) ifaceMethodFunc(it types.Type, m string) *ssa.Function { return ni
 func (e *Enc) contractCall(fr *Frame, fc *FuncContract, callee *ssa.Function, args []Val, resType types.Type, pos token.Pos, cur *pathState, label string) Val {
 	return e.contractCallSig(fr, fc, callee, callee.Signature, args, resType, pos, cur, label, false)
 }
+
+// closureBinds: bindings of the closure being called through its contract (set by execStatic0).
+var closureBinds []Val
 
 var ifaceNamed *types.Named
 var ifaceMethod string
@@ -773,6 +783,20 @@ func (e *Enc) contractEnv(fc *FuncContract, callee *ssa.Function, sig *types.Sig
 	if callee != nil && len(callee.Params) == len(args) {
 		for i, p := range callee.Params {
 			env[p.Name()] = SV{T: args[i].T, Sort: args[i].S, Typ: p.Type()}
+		}
+		for i, fv := range callee.FreeVars {
+			if i >= len(closureBinds) {
+				break
+			}
+			if _, shadow := env[fv.Name()]; shadow {
+				continue
+			}
+			t := fv.Type().Underlying().(*types.Pointer).Elem()
+			if isObjStruct(t) {
+				env[fv.Name()] = SV{T: closureBinds[i].T, Sort: "Ref", Typ: fv.Type()}
+			} else {
+				env[fv.Name()] = SV{Typ: t, Loc: e.addrLoc(closureBinds[i], t)}
+			}
 		}
 		return env
 	}
